@@ -17,6 +17,10 @@ CLAIMED = {
    text="Gate conservation (capacity + holders = limit), no lost wake-up/signal and completion with limit 1 are invariants/liveness of Runner.tla checked by TLC; on the real code the monitor counts targets inside LoadTarget/Evaluate but outside EvaluateTargets against the limit set by CPU affinity, and checks the white-box free-slot count at quiescent points and at the end.",
    note="The limit is runtime.NumCPU(), controlled with taskset; white-box capacity read by reflection (omitted if the implementation is refactored).",
    technique="TLA+ invariants (gate conservation) in TLC; real traces evaluated by the TLA+ monitor under taskset-limited parallelism"),
+ "C06": dict(engine="modload", level="model_checking", design="DESIGN.md §4 C06",
+   text="TLC checks ModLoad.tla (registry, loading edges, chain walk, cond waits; one action per yield-to-yield segment) composed with ModLoadMon.tla for safety, deadlock freedom and termination over curated and random load graphs (shared helpers, 2/3-cycles entered from several roots, self-loads, failing modules); the real dawn.Load runs on generated project trees under TLC-generated, random and PCT schedules and free-running; every execution is evaluated by the monitor and controlled traces are validated against ModLoad.tla. The spec also models the defective walk found in the original code (Walk = current), which TLC shows to deadlock.",
+   note="synctest cannot see through a goroutine blocked on a mutex: a stalled schedule is re-executed outside a bubble with wall-clock quiescence and then drained; a hang there is the verdict.",
+   technique="TLA+ design spec + TLC (safety, deadlock, liveness); TLC-generated schedules replayed on real dawn.Load under a controlled scheduler; TLA+ monitor over real traces; trace validation"),
  "C20": dict(engine="cache", level="model_checking", design="DESIGN.md §4 C20",
    text="TLC checks Cache.tla (readers/writer lock, fast probe, locked re-probe, call, store; one action per lock operation) composed with CacheMon.tla for 2-4 callers x 1-2 keys x failure plans; the real Cache().once is driven through its Starlark interface by TLC-generated, random and PCT schedules and free-running with a slow callable; every real execution is evaluated by the monitor and controlled traces are validated against Cache.tla.",
    note="sync.RWMutex trusted; callable does not re-enter the cache; failures may be shared by overlapping calls (single-flight) but not cached.",
@@ -46,12 +50,14 @@ manifest = {
         "guard": "verif",
         "enable": "go1.26 test -c -tags verif -overlay <generated overlay.json> (harness test files are injected from /verif/harness, nothing is copied into /repo)",
         "baseline_off_cmd": "cd /repo && GOFLAGS=-mod=mod GOPROXY=off GOSUMDB=off GOTOOLCHAIN=local go test -json -vet=off -count=1 -timeout 25m ./...",
-        "source_commits": ["d2a456e", "4ef7f06"],
+        "source_commits": ["d2a456e", "4ef7f06", "cd363d8"],
         "add_only": True,
     },
     "engines": [
         {"name": "runner", "path": "tools/fam_runner.py", "serves_properties": ["C04", "C05", "C09"],
          "kind_free_text": "TLC (design check, schedule generation, monitor evaluation, trace validation) + Go overlay harness with synctest controlled scheduler"},
+        {"name": "modload", "path": "tools/fam_modload.py", "serves_properties": ["C06"],
+         "kind_free_text": "TLC + Go overlay harness in package dawn driving dawn.Load on generated project trees"},
         {"name": "cache", "path": "tools/fam_cache.py", "serves_properties": ["C20"],
          "kind_free_text": "TLC + Go overlay harness in package dawn (controlled scheduler, stress)"},
     ],
